@@ -189,6 +189,48 @@ pub fn templates() -> Vec<Tmpl> {
             vec![PolyEvalExt((0..n).map(|i| a[1 + i % 2]).collect(), a[0])]
         }));
     }
+    // less common gadgets
+    v.push(t("wide_arith_ext", vec![E, E, E], |a, _| vec![WideArithExt(a[0], a[1], a[2], a[0], a[1])]));
+    for k in [1u64, P - 1, 1 << 32] {
+        v.push(t(&format!("inner_product_ext_{k}"), vec![E, E, E], move |a, _| vec![InnerProductExt(k, a[0], vec![(a[1], a[2]), (a[0], a[1]), (a[2], a[2])])]));
+    }
+    v.push(t("inner_product_ext_empty", vec![E], |a, _| vec![InnerProductExt(3, a[0], vec![])]));
+    v.push(t("div_add_ext", vec![E, E, E], |a, _| vec![DivAddExt(a[0], a[1], a[2])]));
+    v.push(t("mul_sub_ext", vec![E, E, E], |a, _| vec![MulSubExt(a[0], a[1], a[2])]));
+    v.push(t("scalar_mul_add_ext", vec![B, E, E], |a, _| vec![ScalarMulAddExt(a[0], a[1], a[2])]));
+    v.push(t("scalar_mul_sub_ext", vec![B, E, E], |a, _| vec![ScalarMulSubExt(a[0], a[1], a[2])]));
+    for k in [0u64, 1, P - 1, EPS] {
+        v.push(t(&format!("mul_const_add_ext_{k}"), vec![E, E], move |a, _| vec![MulConstAddExt(k, a[0], a[1])]));
+        v.push(t(&format!("add_const_ext_{k}"), vec![E], move |a, _| vec![AddConstExt(a[0], k)]));
+        v.push(t(&format!("mul_const_ext_{k}"), vec![E], move |a, _| vec![MulConstExt(k, a[0])]));
+        v.push(t(&format!("mul_ext_with_const_{k}"), vec![E, E], move |a, _| vec![MulExtWithConst(k, a[0], a[1])]));
+    }
+    v.push(t("add_many_ext3", vec![E, E, E], |a, _| vec![AddManyExt(vec![a[0], a[1], a[2]])]));
+    v.push(t("add_many_ext0", vec![], |_, _| vec![AddManyExt(vec![])]));
+    for n in [1usize, 3, 8] {
+        v.push(ta(&format!("exp_bits_ext_{n}"), vec![E, B], vec![None, Some(small_range(n))], move |a, _| vec![ExpBitsExt(a[0], a[1], n)]));
+    }
+    for k in [0usize, 1, 2, 3] {
+        v.push(t(&format!("frobenius_ext_{k}"), vec![E], move |a, _| vec![FrobeniusExt(a[0], k)]));
+    }
+    v.push(t("select_ext_generalized", vec![E, E, E], |a, _| vec![SelectExtGen(a[0], a[1], a[2])]));
+    v.push(ta("cond_assert_eq_ext", vec![B, E, E], vec![Some(vec![0, 1, 2]), None, None], |a, _| vec![CondAssertEqExt(a[0], a[1], a[2]), AddExt(a[1], a[2])]));
+    v.push(t("connect_ext", vec![E, E], |a, _| vec![ConnectExt(a[0], a[1]), MulExt(a[0], a[1])]));
+    v.push(t("permute", vec![B, B], |a, _| vec![Permute((0..12).map(|i| a[i % 2]).collect())]));
+    v.push(t("permute_chain", vec![B], |a, b| vec![Permute(vec![a[0]; 12]), Permute((b..b + 12).collect())]));
+    for len in [1usize, 2, 3, 4] {
+        let al: Vec<u64> = (0..=len as u64).collect();
+        v.push(ta(&format!("random_access_hash_{len}"), vec![B, B, B], vec![Some(al), None, None], move |a, _| {
+            vec![RandomAccessHash(a[0], (0..4 * len).map(|i| a[1 + (i / 3) % 2]).collect())]
+        }));
+    }
+    for n in [0usize, 1, 4] {
+        v.push(t(&format!("poly_eval_scalar_{n}"), vec![B, E, E], move |a, _| vec![PolyEvalScalar((0..n).map(|i| a[1 + i % 2]).collect(), a[0])]));
+    }
+    v.push(t("powers_5", vec![E], |a, _| vec![Powers(a[0], 5)]));
+    // le_sum through the BaseSumGate path (more bits than one ArithmeticGate row holds operations)
+    v.push(ta("split_then_le_sum_40", vec![B], vec![Some(small_range(40))], |a, b| vec![SplitLe(a[0], 40), LeSum((b..b + 40).collect())]));
+    v.push(ta("split_then_le_sum_63", vec![B], vec![Some(small_range(63))], |a, b| vec![SplitLe(a[0], 63), LeSum((b..b + 63).collect())]));
     // hashing
     for n in [0usize, 1, 4, 7, 8, 9, 16, 17] {
         v.push(t(&format!("hash_no_pad_{n}"), vec![B, B], move |a, _| vec![HashNoPad((0..n).map(|i| a[i % 2]).collect())]));
@@ -468,6 +510,51 @@ pub fn merkle_cases() -> Vec<(Program, Vec<Vec<u64>>)> {
             }
             out.push((prog, ivs));
         }
+    }
+    // verification against a cap: height = number of siblings, index has height + cap_height bits
+    for (height, cap_height) in [(0usize, 1usize), (1, 1), (2, 2), (1, 0)] {
+        let leaf_len = 3usize;
+        let n_cap = 4 << cap_height;
+        let n_in = leaf_len + 1 + n_cap + 4 * height;
+        let leaf: Vec<usize> = (0..leaf_len).collect();
+        let index = leaf_len;
+        let cap: Vec<usize> = (leaf_len + 1..leaf_len + 1 + n_cap).collect();
+        let siblings: Vec<usize> = (leaf_len + 1 + n_cap..n_in).collect();
+        let prog = Program::new(
+            &format!("merkle_cap_h{height}_c{cap_height}"),
+            vec![Ty::B; n_in],
+            vec![MerkleVerifyCap { leaf, index, height, cap_height, cap, siblings }, Const(1)],
+        );
+        let mut ivs = Vec::new();
+        for idx in 0..(1u64 << (height + cap_height)) {
+            let leaf_vals: Vec<u64> = (0..leaf_len).map(|i| addm(P - 2, i as u64)).collect();
+            let sibs: Vec<Vec<u64>> = (0..height).map(|l| vec![l as u64 + 5, P - 1, 1 << 32, idx]).collect();
+            let mut cur = ref_hash_or_noop(&leaf_vals);
+            for l in 0..height {
+                cur = if (idx >> l) & 1 == 1 { ref_two_to_one(&sibs[l], &cur) } else { ref_two_to_one(&cur, &sibs[l]) };
+            }
+            // the cap: the path's entry holds the root of its sub-tree, the others hold junk
+            let ci = (idx >> height) as usize;
+            let mut capv: Vec<u64> = (0..n_cap as u64).map(|i| 1000 + i).collect();
+            capv[4 * ci..4 * ci + 4].copy_from_slice(&cur);
+            let mut iv = leaf_vals.clone();
+            iv.push(idx);
+            iv.extend(capv.iter());
+            for s in &sibs {
+                iv.extend(s.iter());
+            }
+            ivs.push(iv.clone());
+            // the right digest in the WRONG cap entry: unsatisfied
+            if (1 << cap_height) > 1 {
+                let mut bad = iv.clone();
+                let other = (ci + 1) % (1 << cap_height);
+                for k in 0..4 {
+                    bad.swap(leaf_len + 1 + 4 * ci + k, leaf_len + 1 + 4 * other + k);
+                }
+                ivs.push(bad);
+            }
+        }
+        out.push((prog, ivs));
     }
     out
 }
